@@ -4,10 +4,16 @@ Layout: TLC enumerates struct/union declarations (spec/CLayout.tla) and gives si
 bit position / width / signedness and the eightbyte classes.  Batches of declarations are rendered into a C translation
 unit that prints sizeof, _Alignof, offsetof of every non-bit-field leaf and, for bit-fields, the byte dump of a zeroed
 object after storing all-ones and the value read back.  The unit is run by c2m (-ei; -eg -O2 too in thorough) and by gcc.
-VIOLATION iff spec == gcc and c2m differs; spec != gcc is SPEC-DISAGREES (exit 0, counted).
+VIOLATION iff spec == gcc and c2m differs (confirmed by a second run in another unit); spec != gcc is SPEC-DISAGREES
+(exit 0, counted).  A mismatch that equals the prediction of one of the deviation models of the spec (L(T, v), v # {})
+gets that deviation's finding key, anything else a key made of the aspect and the declaration's signature.
+Static objects: `c2m -S` must emit at least sizeof bytes for uninitialised file-scope / block-scope static objects.
 By-value: for the distinct (classes, size, leaf signature) shapes found by TLC, caller/callee pairs where one side is
-compiled by c2m and the other by gcc (shared library given to c2m with -L/-l), both directions, as arguments (first,
-mixed with scalars, after the integer / SSE registers are exhausted, several aggregates) and as return values.
+compiled by c2m and the other by gcc (shared library given to c2m with -L/-l; gcc -> c2m through callbacks), both
+directions, as arguments (first, mixed with scalars, after the integer / SSE registers are exhausted, all registers
+used, four aggregates) and as return values, plus c2m -> c2m and gcc -> gcc controls.
+Classification: the spec's classes are compared with where gcc really takes a lone aggregate argument from
+(harness/c08_probe.S loads every argument register and stack slot with its own byte pattern).
 """
 import collections, hashlib, json, os, random, re, subprocess, sys, time
 from concurrent.futures import ThreadPoolExecutor
@@ -397,7 +403,6 @@ def judge_layout(c2m, rows, tag, engines, st, mutate=None):
             st.confirmed += 1
             if not ok and o is None or not ok and o == e:
                 st.c2m_fail += 1
-                first = (diag.strip().splitlines() or ["?"])[-1]
                 keys = ["layout:c2m_fails:" + sig(r["d"])]
                 text = "%s: gcc and spec agree, c2m %s fails: %s" % (decl_text(r["d"]), eng, diag.strip()[-200:])
             else:
@@ -414,10 +419,6 @@ TESTS = ["a1", "a2", "a3", "a4", "a5", "a6", "r", "r2"]
 
 def leaf_sig(r):
     return tuple((l["off"] if l["bit"] < 0 else l["bit"], l["t"] if l["bit"] < 0 else "bf%d" % l["w"]) for l in r["lv"] if l["p"])
-
-
-def count_leaves(T):
-    return len(py_paths(T))
 
 
 def _lit(rng, lf):
@@ -901,9 +902,11 @@ def tlc_jobs(tier):
 
 def bv_keys(r, eng, test, v):
     """finding key of one failing by-value test"""
-    cs = set(r["cls"])
+    # c2m against itself: the classes c2m works with (those of the deviation model where it deviates)
+    cl = r.get("dcls", r["cls"]) if test == "c2mself" else r["cls"]
+    cs = set(cl)
     cls = ("INT" if cs == {"INTEGER"} else "SSE" if cs == {"SSE"} else "MEM" if cs == {"MEMORY"} else "X87" if "X87" in cs
-           else "INT_SSE" if r["cls"] == ["INTEGER", "SSE"] else "SSE_INT" if r["cls"] == ["SSE", "INTEGER"] else "_".join(r["cls"]))
+           else "INT_SSE" if cl == ["INTEGER", "SSE"] else "SSE_INT" if cl == ["SSE", "INTEGER"] else "_".join(cl))
     cls += "%d" % (1 if r["sz"] <= 8 else 2 if r["sz"] <= 16 else 3)          # one eightbyte / two / more
     if isinstance(v, str) and v.startswith("c2m fails"):
         return ["abi:%s:c2m_fails_on_unit:%s" % (ENG_TAG.get(eng, eng), cls)]
